@@ -158,7 +158,8 @@ def gen_program(rnd, pid, small=False):
                 th.insert(rnd.randint(0, len(th)), ['tempo', c, *rnd.choice(TEMPI)])
                 if rnd.random() < 0.3:
                     th.insert(rnd.randint(0, len(th)), ['sleep', rnd.choice([128, 512, 1024])])
-    return dict(id=pid, tempo=tempo, tasks=tasks, threads=threads, horizon=40 * U)
+    # qpoints: preemption points inside the TaskQueue methods (after every heap operation)
+    return dict(id=pid, tempo=tempo, tasks=tasks, threads=threads, horizon=40 * U, qpoints=rnd.random() < 0.35)
 
 
 def nontrivial(tr):
